@@ -11,7 +11,7 @@ LINE_POOL = ["BEGIN X", "END", "  BEGIN", "data 1", "STOP here", "B", "", "XEND"
 class CHECK(Check):
     pid = "C12"
     entry = "BLOCKFILE"
-    theorems = ["C12_accounting", "C12_roundtrip", "C12_dispatch", "C12_total", "C12_default_one_line"]
+    theorems = ["C12_total", "C12_accounting", "C12_roundtrip", "C12_dispatch", "C12_first_match", "C12_default_one_line"]
     rule = ("block lists of 1-4 raw block types (blocks that store the lines they consume: from the first line up to and "
             "including the first line where the end pattern is found, or the end of input) with begin/end patterns from a "
             "pool of regular expressions that match mid-line, are anchored, alternate and overlap (declaration order "
